@@ -157,7 +157,7 @@ func examples() []*exampleParser {
 			nil,
 			func(n int) string { return rep("k = 1\n", n) },
 			participle.Unquote("String")),
-		mkExample[ipString]("interp", []string{`"hello ${name} and ${"nested ${deep}"} \" $ done"`, `""`, `"${a+b}"`},
+		mkExample[ipString]("interp", []string{`"hello ${name} and ${"nested ${deep}"} \" $ done"`, `""`, `"${a+b}"`, "\"l1\nl\u00efne ${x} \u00e9 ${y}\""},
 			func(n int) string { return rep(`"${`, n) + "x" + rep(`}"`, n) },
 			func(n int) string { return `"` + rep("${a}", n) + `"` },
 			participle.Lexer(interpLexer)),
@@ -265,9 +265,9 @@ func mutate(rng *rand.Rand, s string) string {
 			if len(b) > 0 {
 				b[rng.Intn(len(b))] ^= byte(1 << rng.Intn(8))
 			}
-		case 5: // multi-byte text
+		case 5: // multi-byte text around a newline
 			i := rng.Intn(len(b) + 1)
-			b = append(b[:i], append([]byte("é\n"), b[i:]...)...)
+			b = append(b[:i], append([]byte([]string{"é\n", "\né", "\n\u00e9\u00e9"}[rng.Intn(3)]), b[i:]...)...)
 		}
 	}
 	return string(b)
@@ -296,6 +296,30 @@ func deepRun(args []string) error {
 	n, _ := strconv.Atoi(args[2])
 	limit, _ := strconv.Atoi(args[3])
 	debug.SetMaxStack(limit)
+	if args[0] == "lexflat" {
+		// a long flat run of consecutive ignored tokens (comment lines separated by ignored newlines) on a stateful lexer
+		def := exampleLexers()["heredoc"]
+		in := strings.Repeat("// c\n", n) + "x"
+		l, _ := def.LexString("f", in)
+		toks := 0
+		for {
+			t, err := l.Next()
+			if err != nil {
+				fmt.Printf("lexflat\tflat\t%d\terr %v\n", n, err)
+				return nil
+			}
+			if t.EOF() {
+				break
+			}
+			toks++
+		}
+		out := "ok"
+		if toks != 1 {
+			out = fmt.Sprintf("err %d tokens", toks)
+		}
+		fmt.Printf("lexflat\tflat\t%d\t%s\n", n, out)
+		return nil
+	}
 	for _, e := range examples() {
 		if e.name != args[0] {
 			continue
